@@ -132,11 +132,27 @@ func (w *world) fn(ctx context.Context) (int, error) {
 	}
 }
 
+// deadlineCtx behaves like a context whose deadline expires when the wrapped
+// context is cancelled: Done is the same channel, Err reports DeadlineExceeded.
+type deadlineCtx struct{ context.Context }
+
+func (d deadlineCtx) Err() error {
+	if d.Context.Err() != nil {
+		return context.DeadlineExceeded
+	}
+	return nil
+}
+
 func (w *world) runCaller(x *caller) {
 	c := w.c
 	ctx, cancel := context.WithCancel(context.Background())
 	defer cancel()
 	x.cancel = cancel
+	if c.S.PlanP(250) {
+		// a context that ends by deadline: once done, Err() is DeadlineExceeded
+		c.S.Count("probe:deadline-context")
+		ctx = deadlineCtx{ctx}
+	}
 	switch c.S.Fault(10) {
 	case 1:
 		x.cancelReq = c.Tick()
